@@ -820,8 +820,12 @@ def op_casread(ch, ctx, W, label):
         else:
             mk = (pf, None, None, ck)
     W.note(S, mk, ctx)
-    do_read(ctx, S, 'mol', mk, ev=W.evtag(S, mk), site='casread')
-    return [S.kind, mk[0]]
+    mode = ch.choice(f'{label}.mode', ['read', 'read', 'write'])
+    if mode == 'read':
+        do_read(ctx, S, 'mol', mk, ev=W.evtag(S, mk), site='casread')
+    else:
+        do_write(ch, ctx, label, S, 'mol', mk, ev=W.evtag(S, mk), hist=True)
+    return [S.kind, mk[0], mode]
 
 
 def op_new(ch, ctx, W, label):
